@@ -157,7 +157,7 @@ end Kernel
 /-! ### The specification the kernel is compared to (a direct per-mutation / per-edge tally) -/
 
 section Spec
-variable {α : Type} [Inhabited α] [LT α] [LE α] [DecidableLT α] [DecidableLE α]
+variable {α : Type} [Inhabited α] [LT α] [LE α] [DecidableLT α] [DecidableLE α] [OfNat α 0]
 
 /-- edge `e` is in the local tree at `pos` -/
 def activeAt (T : Tables α) (pos : α) (e : Nat) : Bool :=
@@ -168,9 +168,10 @@ the mutation's position (`none` above a root / in a gap). -/
 def specEdge (T : Tables α) (M : Muts α) (m : Nat) : Option Nat :=
   (List.range T.numEdges).find? fun e => T.chi e == aget M.node m && activeAt T (aget M.pos m) e
 
-/-- mutation ids `< M.node.size`, node ids `< n` -/
+/-- every mutation sits on a node id `< n` at a position `≥ 0` -/
 def mutsOkB (M : Muts α) (n : Nat) : Bool :=
-  M.pos.size == M.node.size && (List.range M.node.size).all fun m => decide (aget M.node m < n)
+  M.pos.size == M.node.size &&
+  (List.range M.node.size).all fun m => decide (aget M.node m < n) && decide (0 ≤ aget M.pos m)
 
 end Spec
 
@@ -179,11 +180,14 @@ end Spec
 section SpanArray
 variable {α : Type} [Inhabited α] [Add α] [Sub α] [OfNat α 0] [OfNat α 1]
 
+/-- `if mut.edge != NULL: spans[mut.edge, 0] += 1` -/
+def tallyStep (acc : Array α) : Option Nat → Array α
+  | none => acc
+  | some e => aset acc e (aget acc e + 1)
+
 /-- first column: `for mut: if mut.edge != NULL: spans[mut.edge, 0] += 1` (`mut.edge` from tskit) -/
 def tally (numEdges : Nat) (mutEdge : List (Option Nat)) : Array α :=
-  mutEdge.foldl (fun acc oe => match oe with
-    | none => acc
-    | some e => aset acc e (aget acc e + 1)) (Array.replicate numEdges 0)
+  mutEdge.foldl tallyStep (Array.replicate numEdges 0)
 
 /-- second column: `edge.span` = `right - left` -/
 def spanColumn (T : Tables α) : List α := (List.range T.numEdges).map fun e => T.r e - T.l e
